@@ -355,10 +355,19 @@ def check_weights(ctx):
     ctx.evaluations += 1
     ctx.stat("weights")
     g = GeoGrid(np.arange(2), lat, lon, silence_level=3)
+    # the area-weighted measures use cos(latitude) whatever weights the
+    # network carries for its n.s.i. measures
+    nwt = rng.choice(["surface", "surface", "irrigation", None])
     net = GeoNetwork(g, adjacency=A, directed=directed,
-                     node_weight_type="surface", silence_level=3)
+                     node_weight_type=nwt, silence_level=3)
+    key["node_weight_type"] = nwt
+    if rng.random() < 0.3:
+        net.node_weights = np.array(graphs.weights(rng, n))
+        key["node_weights_assigned"] = True
+        nwt = "assigned"
     w = np.cos(np.radians(lat.astype(np.float64)))
-    if np.abs(np.asarray(net.node_weights, float) - w).max() > 1e-6:
+    if nwt == "surface" and \
+            np.abs(np.asarray(net.node_weights, float) - w).max() > 1e-6:
         ctx.violation("GeoNetwork.node_weights", "is not the cosine of each "
                       "node's own latitude", key, {})
     W = w.sum()
